@@ -49,6 +49,10 @@ def body(ctx: H.BaseCtx):
     g, r = case.get("graded", False), case.get("reverse", False)
     items = M.flat_items(mp)
     shape = tuple(mp.shape)
+    if not ctx.symbolic and fn in ("argext", "proxy"):
+        # native runs: rank and identify elements by the numbers the operand really holds (a valuation such as 5/6 is stored as
+        # the nearest float; comparing it with the exact fraction would be a comparison with an element that is not there)
+        items = M.flat_items(M.to_model(p))
     try:
         if fn in ("lead", "proxy", "argext"):
             leads = [model_lead(e, names, g, r) for e in items]
